@@ -29,12 +29,15 @@
 #include <tbox/base/verif_hook.h>
 #include <tbox/event/loop.h>
 #include <tbox/network/dns_request.h>
+#include <tbox/network/udp_socket.h>
+#include <atomic>
+#include <thread>
 
 using json = nlohmann::json;
 using namespace tbox;
 using namespace tbox::network;
 
-static uint64_t g_now = 1000000;
+static std::atomic<uint64_t> g_now{1000000};
 static bool vclock(uint64_t &ms) { ms = g_now; return true; }
 
 static int g_srv[4];                 // server sockets 1..3
@@ -283,6 +286,42 @@ static void run_script(const json &sc) {
     delete x.loop;
 }
 
+// Bystander (VERIF_C15_BYSTANDER=1): an unrelated UdpSocket on its own event loop in its own thread, flooded with datagrams of
+// 0xEE bytes for the whole run.  The statement quantifies over the datagrams the DNS client receives: whatever another socket of
+// the process receives meanwhile must neither show up in nor disturb the client's results (state shared between UdpSocket objects
+// would do that).  The recorded events are the DNS client's only, so the trace specification is unchanged.
+static std::atomic<bool> g_by_stop{false};
+static event::Loop *g_by_loop = nullptr;
+static std::thread g_by_thread, g_by_flood;
+static void start_bystander() {
+    std::string ip = g_srv_ip[1].substr(0, g_srv_ip[1].rfind('.')) + ".9";
+    g_by_loop = event::Loop::New();
+    std::atomic<bool> ready{false};
+    g_by_thread = std::thread([ip, &ready] {
+        UdpSocket us(g_by_loop);
+        if (!us.bind(SockAddr(IPAddress::FromString(ip), 5354))) { fprintf(stderr, "bystander: cannot bind\n"); _exit(3); }
+        us.setRecvCallback([](const void *, size_t, const SockAddr &) {});
+        us.enable();
+        ready = true;
+        g_by_loop->runLoop(event::Loop::Mode::kForever);
+    });
+    while (!ready) usleep(1000);
+    g_by_flood = std::thread([ip] {
+        int fd = socket(AF_INET, SOCK_DGRAM, 0);
+        struct sockaddr_in sa; memset(&sa, 0, sizeof sa); sa.sin_family = AF_INET; sa.sin_port = htons(5354); inet_pton(AF_INET, ip.c_str(), &sa.sin_addr);
+        uint8_t junk[1400]; memset(junk, 0xEE, sizeof junk);
+        while (!g_by_stop) { ssize_t w = sendto(fd, junk, sizeof junk, 0, (struct sockaddr *)&sa, sizeof sa); (void)w; usleep(50); }
+        close(fd);
+    });
+}
+static void stop_bystander() {
+    g_by_stop = true;
+    g_by_flood.join();
+    g_by_loop->runInLoop([] { g_by_loop->exitLoop(); }, "verif-bystander-exit");
+    g_by_thread.join();
+    delete g_by_loop;
+}
+
 int main(int argc, char **argv) {
     if (argc < 4 || std::string(argv[1]) != "script") { fprintf(stderr, "usage: driver script <scripts.jsonl> <out.ndjson>\n"); return 3; }
     vh::T().open(argv[3]);
@@ -292,6 +331,8 @@ int main(int argc, char **argv) {
     cap_memory();
     tbox::verif::Hooks().steady_ms = vclock;
     bind_servers();
+    const bool bystander = getenv("VERIF_C15_BYSTANDER") != nullptr;
+    if (bystander) start_bystander();
     std::ifstream in(argv[2]);
     std::string line;
     while (std::getline(in, line)) {
@@ -299,6 +340,7 @@ int main(int argc, char **argv) {
         run_script(json::parse(line));
         vh::T().flush();
     }
+    if (bystander) stop_bystander();
     vh::T().close();
     return 0;
 }
